@@ -155,24 +155,26 @@ func rulePrefixCodedAgreement(r *Report, rule string) {
 	r.Ob(rule, "ShiftStartInt64/same-constant-in-encoder,Shift,Valid", enc.Decl.Pos(), e0 && s0 && v0, "the shift byte is formed and parsed with the same ShiftStartInt64 constant")
 	// nChars formula agreement between encoder and validator
 	form := func(fi *FuncInfo) string {
+		// the data-length computation by role: `<x> / 7 + <const>` wherever it is written (a definition, a
+		// comparison operand, an expanded helper); local variable names are normalised away, conversions dropped
 		out := ""
+		info := fi.Pkg.TypesInfo
 		ast.Inspect(fi.Decl.Body, func(x ast.Node) bool {
-			// the data-length computation by role: a definition whose right-hand side divides by the 7-bit digit width;
-			// local variable names are normalised away (every variable becomes $, conversions of a variable are dropped)
-			if as, ok := x.(*ast.AssignStmt); ok && len(as.Lhs) == 1 && len(as.Rhs) == 1 && as.Tok == token.DEFINE {
-				div7 := false
-				ast.Inspect(as.Rhs[0], func(y ast.Node) bool {
-					if be, ok := y.(*ast.BinaryExpr); ok && be.Op == token.QUO {
-						if k, isC := intConst(fi.Pkg.TypesInfo, be.Y); isC && k == 7 {
-							div7 = true
-						}
-					}
-					return true
-				})
-				if div7 {
-					out = normaliseLocals(fi.Pkg.TypesInfo, as.Rhs[0])
-				}
+			add, ok := x.(*ast.BinaryExpr)
+			if !ok || add.Op != token.ADD {
+				return true
 			}
+			q, ok := ast.Unparen(add.X).(*ast.BinaryExpr)
+			if !ok || q.Op != token.QUO {
+				return true
+			}
+			if k, isC := intConst(info, q.Y); !isC || k != 7 {
+				return true
+			}
+			if _, isC := intConst(info, add.Y); !isC {
+				return true
+			}
+			out = normaliseLocals(info, add)
 			return true
 		})
 		return out
